@@ -612,7 +612,49 @@ def rule_suffix(r):
                 node.lineno, "slice must drop exactly the prefix")
 
 
+def rule_sld(r):
+    """SLDs (and only SLDs) of 3.x sets are rescaled: the classification looks the *converted* name up by exact match in
+    the expanded call-parameter list (sld1 ... sld10 are listed there), after the table renaming."""
+    mod = pf.lib("convert")
+    fn = mod.func("_is_sld")
+    par = pf.positional_params(fn)[1]
+    loops = [s_ for s_ in fn.body if isinstance(s_, ast.For)]
+    exact = None
+    for lp in loops:
+        if pf.unparse(lp.iter).endswith("parameters.call_parameters"):
+            v = pf.unparse(lp.target)
+            for st in lp.body:
+                if isinstance(st, ast.If) and pf.unparse(st.test) in ("%s.id == %s" % (v, par), "%s == %s.id" % (par, v)):
+                    rets = [b for b in st.body if isinstance(b, ast.Return)]
+                    if rets and pf.unparse(rets[0].value) in ("%s.type == 'sld'" % v, "'sld' == %s.type" % v):
+                        exact = lp
+    r.check(exact is not None, F, "_is_sld", "for p in call_parameters: if p.id == %s: return p.type == 'sld'" % par, fn.lineno,
+            "numbered entries of vector SLDs (sld1 ... sld10) are matched by their full name" if exact is not None else
+            "the SLD test does not look the full name up in the expanded call parameters: some numbered SLD entries are "
+            "not recognised and keep their 3.x value (not rescaled by 1e6)")
+    if exact is not None:
+        earlier = [s_ for s_ in fn.body if s_.lineno < exact.lineno and isinstance(s_, (ast.For,))]
+        r.check(not earlier, F, "_is_sld", "exact lookup comes before any fallback", exact.lineno)
+    first = [s_ for s_ in fn.body if isinstance(s_, ast.If)]
+    r.check(bool(first) and pf.unparse(first[0].test) == "%s.startswith('M0:')" % par and pf.unparse(first[0].body[0]) == "return True",
+            F, "_is_sld", "magnetic magnitudes M0:* count as SLDs", first[0].lineno if first else fn.lineno)
+    rs = mod.func("_rescale_sld")
+    r.check(pf.contains_text(rs, "return dict(((par, _rescale(v, scale) if _is_sld(model_info, par) else v) for (par, v) in pars.items()))"), F,
+            "_rescale_sld", "every item: rescaled iff _is_sld", rs.lineno)
+    pipe = Pipeline()
+    names = [s_[1] for s_ in pipe.stages if s_[0] == "call"]
+    ok = "_rescale_sld" in names and names.index("_convert_pars") < names.index("_rescale_sld")
+    r.check(ok, F, "convert_model", "stage order %s" % names, pipe.loop.lineno, "rescale acts on the renamed (current) names")
+    st = [s_ for s_ in pipe.stages if s_[1] == "_rescale_sld"]
+    if st:
+        r.check(st[0][3] is not None and pf.unparse(st[0][3]) == "not model_info.structure_factor and version == (3, 1, 2)", F,
+                "convert_model", "rescale only for 3.1.2 sets of non-structure-factor models", st[0][2].lineno)
+        a = [pf.unparse(x) for x in st[0][2].value.args]
+        r.check(a[-1:] in (["1000000.0"], ["1e6"]), F, "convert_model", "_rescale_sld(..., %s)" % a[-1], st[0][2].lineno, "factor 1e6")
+
+
 RULES = [
+    ("R-C20-sld", 6, "SLD classification and rescale stage", rule_sld),
     ("R-C20-type", 3, "no str method on a (key,value) tuple in convert.py", rule_type),
     ("R-C20-names", 2, "every listed old model name is looked up", rule_names),
     ("R-C20-table", 300, "each table row ends in a parameter of the target model under the source's stage order", rule_table),
